@@ -133,7 +133,7 @@ func specTerm(judged bool, declared bool) string {
 
 func runC12(cfg *vh.Config) error {
 	res := vh.NewResult("C12", cfg.Seed)
-	res.Rule = "declarations: integer (4 formats; minimum/maximum absent, 0, format min/max, near them; exclusive flags absent/false/true), string (min/max length absent/0/1-6, pattern incl. patterns RE2 rejects), bytes, bool const, enum in/not-in (short and prefixed names), key (none/informal/custom incl. ill-formed patterns/uuid/id62, primary key), float and message-typed fields; each plain, required, optional, or as array (min/max items absent/0/1-6, unique absent/false/true, also on float and message items) or map; values: below/at/above every bound, multi-byte strings, (non-)matching patterns, undefined enum numbers, absent vs zero, +0/-0/NaN, lists with and without duplicates (messages with equal and different content); non-trivial = distinct declaration carrying at least one rule, required flag or format"
+	res.Rule = "declarations: integer (4 formats; minimum/maximum absent, 0, format min/max, near them; exclusive flags absent/false/true), string (min/max length absent/0/1-6, pattern incl. patterns RE2 rejects), bytes, bool const, enum in/not-in (short and prefixed names; enum with / without an explicit zero option, or with a first option merely ending in UNSPECIFIED = an ordinary option; declared in the same file, another file of the package, an imported package), key (none/informal/custom incl. ill-formed patterns/uuid/id62, primary key), float and message-typed fields; each plain, required, optional, or as array (min/max items absent/0/1-6, unique absent/false/true, also on float and message items) or map; values: below/at/above every bound, multi-byte strings, (non-)matching patterns, undefined enum numbers, absent vs zero, +0/-0/NaN, lists with and without duplicates (messages with equal and different content); non-trivial = distinct declaration carrying at least one rule, required flag or format"
 	cf := &vh.CasesFile{
 		Header: "From Coq Require Import String List NArith ZArith.\nFrom J5V.lib Require Import Outcome.\nFrom J5V.model Require Import RulesDecl RulesRead RulesNested RulesNestedSem RulesOneof RulesCompile RulesCorr.",
 		Type:   "c12case",
